@@ -17,11 +17,22 @@ Ref = z3.DeclareSort("Ref")  # opaque external objects (hash algorithms, curves,
 blen = z3.Function("blen", Bytes, z3.IntSort())  # length of an opaque byte string
 byte_at = z3.Function("byte_at", Bytes, z3.IntSort(), z3.IntSort())  # i-th byte, 0..255
 
-_counter = itertools.count()
+_counter = [0]
 
 
 def fresh_name(prefix: str) -> str:
-    return f"{prefix}!{next(_counter)}"
+    _counter[0] += 1
+    return f"{prefix}!{_counter[0]}"
+
+
+def reset_names():
+    """Called at the start of every path: fresh names are then a deterministic function of the execution prefix, so
+    the terms of a shared prefix are the same (hash-consed) ASTs on every path and solver answers can be shared."""
+    _counter[0] = 0
+
+
+QCACHE: dict = {}  # (path-condition key, query id, prove?) -> result, shared by all paths of one process
+QHOLD: list = []  # keeps every AST used in a key alive so that ids are never reused
 
 
 def fresh_int(prefix="i"):
@@ -138,8 +149,8 @@ class PathSolver:
         self._lits_seen = 0
         self._blits_seen = 0
         self._key = 0
-        self._cache: dict = {}
-        self._hold = []  # keep ASTs alive so that ids stay unique
+        self._cache = QCACHE
+        self._hold = QHOLD
         self._pur_memo: dict = {}
         self._divmod: dict = {}
         self._divs_of: dict = {}
@@ -180,8 +191,8 @@ class PathSolver:
             x = kids[0]
             key = (x.get_id(), K)
             if key not in self._divmod:
-                q = z3.FreshInt("q")
-                r = z3.FreshInt("r")
+                q = fresh_int("pq")
+                r = fresh_int("pr")
                 self._both(z3.And(x == K * q + r, r >= 0, r < K))
                 self._divmod[key] = (q, r, x)
                 lst = self._divs_of.setdefault(x.get_id(), [])
@@ -190,7 +201,7 @@ class PathSolver:
                     (qa, ra), (qb, rb) = ((q1, r1), (q, r)) if K1 < K else ((q, r), (q1, r1))
                     if b % a == 0:
                         m = b // a
-                        sv = z3.FreshInt("s")
+                        sv = fresh_int("ps")
                         self._both(z3.And(qa == m * qb + sv, sv >= 0, sv < m, rb == a * sv + ra))
                 lst.append((K, q, r))
             q, r, _ = self._divmod[key]
